@@ -579,6 +579,9 @@ def from_be_bytes(eng, st, site, func, target, args, dty):
     if isinstance(a, VArr):
         if a.src is not None and a.src[0] == "be" and isinstance(a.src[1], VInt):
             return [(st, a.src[1])]
+        if a.src is not None and a.src[0] == "slice" and isinstance(a.src[1], tuple) and a.src[1] and a.src[1][0] == "be" \
+                and isinstance(a.src[1][1], VInt) and a.src[1][2] == a.n:
+            return [(st, a.src[1][1])]          # from_be_bytes(to_be_bytes(v)) = v
         if a.src is not None:
             nm = "be(%r)" % (a.src[1] if a.src[0] == "slice" else a.src,)
             return [(st, eng.named_int(dty, nm, bits_sym=True))]
@@ -615,6 +618,9 @@ def md5_compute(eng, st, site, func, target, args, dty):
     eng.counter += 1
     did = "md5#%d" % st.ntrace
     st.emit(("md5", did, d, site_info(site)))
+    hook = eng.hooks.get("md5")
+    if hook and not eng.mute:
+        hook(st, site, did, d)
     return [(st, VDigest(did, d))]
 
 
@@ -844,6 +850,7 @@ def iter_next(eng, st, site, func, target, args, dty):
                 nv = VAdt(it.ty, it.vidx, {0: (start, VInt(end.ty, end.lin - 1))}, it.base)
                 item = VInt(end.ty, end.lin - 1)
             eng.store(s_some, loc[0], loc[1], nv)
+            s_some.emit(("range_next", back, item, site_info(site)))
             out.append((s_some, mk_option(eng, dty, True, item)))
         if eng.add(st, c_le(end.lin, start.lin)):
             out.append((st, mk_option(eng, dty, False)))
